@@ -21,6 +21,9 @@ RULE = (
     '(all-zero, all-one, random); all 32 output subsets; supplied/allocated/False outputs. '
     'non-trivial = distinct (sweep block, dtype, BoxSize/ppd, output mode) combinations executed and compared'
 )
+RULE += (
+    ' Added after seeded round 9: aux words in the other byte order and as native int64; results of earlier allocate-mode calls re-compared after later calls of equal / smaller length; 8 Python threads decoding different words at the same time.'
+)
 ASSUMPTIONS = [
     'tolerance 1 ulp of the output dtype for pos/vel (bit-exact expected), 4 ulp(BoxSize) for lagr_pos',
     'positions/velocities to encode lie inside the representable range of the format',
@@ -434,6 +437,39 @@ def check_aux(run, bitpacked):
                 run.count('earlier_results_rechecked', len(h))
                 if any(not np.array_equal(a, b, equal_nan=True) for a, b in zip(h, sn)):
                     run.violation('earlier-result-changed-by-later-call', dict(routine=label, dtype=np.dtype(dtype).str, later_call_shorter_by=shorter))
+    # several Python threads decoding different words at the same time (a thread pool over files): each gets the decode of its own words
+    import threading
+
+    nth = 8
+    tw = [rng.integers(0, 1 << 32, (60000 + 1000 * i, 3), dtype=np.uint64).astype(np.uint32).view(np.int32) for i in range(nth)]
+    tp = [rng.integers(0, 1 << 63, 50000 + 777 * i, dtype=np.uint64) for i in range(nth)]
+    quiet = [(bitpacked.unpack_rvint(tw[i], 2000.0, float_dtype=np.float32), bitpacked.unpack_pids(tp[i], box=2000.0, ppd=1728, float_dtype=np.float32, **ALLF)) for i in range(nth)]
+    for rep in range(2 if run.quick else 20):
+        res = [None] * nth
+        bar = threading.Barrier(nth)
+
+        def work(i):
+            bar.wait()
+            try:
+                res[i] = (bitpacked.unpack_rvint(tw[i], 2000.0, float_dtype=np.float32), bitpacked.unpack_pids(tp[i], box=2000.0, ppd=1728, float_dtype=np.float32, **ALLF))
+            except Exception as e:  # noqa
+                res[i] = e
+
+        ths = [threading.Thread(target=work, args=(i,)) for i in range(nth)]
+        [t.start() for t in ths]
+        [t.join() for t in ths]
+        run.ev()
+        run.nt(('concurrent-callers', rep))
+        for i in range(nth):
+            run.count('concurrent_decodes_checked', 2)
+            if isinstance(res[i], Exception):
+                run.violation('concurrent-callers', dict(problem=f'{type(res[i]).__name__}: {res[i]}'[:200], threads=nth))
+                break
+            same_rv = all(np.array_equal(a, b) for a, b in zip(res[i][0], quiet[i][0]))
+            same_p = all(np.array_equal(res[i][1][k_], quiet[i][1][k_]) for k_ in quiet[i][1])
+            if not (same_rv and same_p):
+                run.violation('concurrent-callers', dict(problem='a thread\'s result differs from the quiet decode of its own words', routine='unpack_rvint' if not same_rv else 'unpack_pids', threads=nth, thread=i))
+                break
     # box / ppd omitted when no position is requested: every other field as with them
     for sel in (dict(pid=True), dict(tagged=True, density=True), dict(lagr_idx=True, pid=True, tagged=True, density=True)):
         run.ev()
